@@ -2,6 +2,7 @@ package props
 
 import (
 	"fmt"
+	"sort"
 	"go/ast"
 	"go/token"
 	"go/types"
@@ -117,6 +118,11 @@ func c08(p *core.Program, r *core.Report) {
 	const r3 = "zm-index-table"
 	r.Rule(r3, "the (destination, source) ordinate pairs of extendXYZMFlatCoordsWithXYM equal {(0,0),(1,1),(XYZM.MIndex(), XYM.MIndex())} and extendLayout's XYM->XYZM widening moves old slot XYM.MIndex() to new slot XYZM.MIndex() leaving slot XYZM.ZIndex() infinite; indices evaluated from the MIndex/ZIndex switch tables", 4)
 	zmTable(p, r, r3)
+
+	// ---- rule 4: decision table of extendLayout
+	const r4 = "layout-widening-table"
+	r.Rule(r4, "for each of the 25 pairs (box layout A, incoming layout B) over {NoLayout, XY, XYZ, XYM, XYZM} the first clause of extendLayout's switch whose condition folds to true performs the action the layout lattice requires: XYZ+XYM appends an infinite M slot; XYM+(XYZ|XYZM) inserts an infinite Z slot before M; A<B otherwise extends by stride; anything else leaves the box alone (conditions folded with go/types constants)", 25)
+	layoutWideningTable(p, r, r4)
 
 	strideRule(p, r, "stride-discipline", []strideTarget{{"", "(*Bounds).extendFlatCoords", "all"}})
 
@@ -407,4 +413,117 @@ func zmTable(p *core.Program, r *core.Report, rule string) {
 		return true
 	})
 	r.Check(nSeen == 2 && nOK == 2, rule, "geom.(*Bounds).extendLayout/xym-to-xyzm", p.Pos(fd2.Pos()), true, "min and max keep X,Y, insert an infinite Z at ZIndex and move M from XYM.MIndex() to XYZM.MIndex()", fmt.Sprintf("XYM->XYZM widening is not append(b.s[:%d], Inf, b.s[%d]) for both min and max (%d of %d recognised)", zi["XYZM"], mi["XYM"], nOK, nSeen))
+}
+
+// layoutWideningTable folds extendLayout's switch conditions for every pair of named layouts.
+func layoutWideningTable(p *core.Program, r *core.Report, rule string) {
+	fd, pkg := p.DeclOf("", "(*Bounds).extendLayout")
+	if fd == nil || len(fd.Type.Params.List) != 1 || fd.Recv == nil {
+		r.Lost(rule, "geom.(*Bounds).extendLayout", "anchor lost")
+		return
+	}
+	recvName := fd.Recv.List[0].Names[0].Name
+	paramName := fd.Type.Params.List[0].Names[0].Name
+	var sw *eng.Switch
+	for _, s := range eng.Switches(pkg, fd.Body) {
+		s := s
+		if !s.IsType && s.Tag == nil {
+			sw = &s
+			break
+		}
+	}
+	if sw == nil {
+		r.Lost(rule, "geom.(*Bounds).extendLayout/switch", "no tagless switch in extendLayout")
+		return
+	}
+	classify := func(c *eng.Clause) string {
+		if c == nil {
+			return "none->"
+		}
+		var kinds []string
+		newLayout := ""
+		for _, st := range c.Body {
+			ast.Inspect(st, func(n ast.Node) bool {
+				switch x := n.(type) {
+				case *ast.CallExpr:
+					if id, ok := x.Fun.(*ast.Ident); ok && id.Name == "append" {
+						if _, isSlice := x.Args[0].(*ast.SliceExpr); isSlice && len(x.Args) == 3 {
+							kinds = append(kinds, "insert-z")
+						} else if len(x.Args) == 2 {
+							kinds = append(kinds, "append-m")
+						} else {
+							kinds = append(kinds, "append-other")
+						}
+					}
+					if sel, ok := x.Fun.(*ast.SelectorExpr); ok && sel.Sel.Name == "extendStride" {
+						kinds = append(kinds, "extend-stride")
+					}
+				case *ast.AssignStmt:
+					if len(x.Lhs) == 1 && types.ExprString(x.Lhs[0]) == recvName+".layout" {
+						if v, ok := eng.ConstInt64(eng.ConstOf(pkg.TypesInfo, x.Rhs[0])); ok {
+							newLayout = layoutNames(p)[v]
+						} else {
+							newLayout = types.ExprString(x.Rhs[0])
+						}
+					}
+				}
+				return true
+			})
+		}
+		k := "none"
+		if len(kinds) > 0 {
+			k = kinds[0]
+			for _, o := range kinds {
+				if o != k {
+					k = "mixed"
+				}
+			}
+		}
+		return k + "->" + newLayout
+	}
+	ln := layoutNames(p)
+	var vals []int64
+	for v := range ln {
+		vals = append(vals, v)
+	}
+	sort.Slice(vals, func(i, j int) bool { return vals[i] < vals[j] })
+	for _, a := range vals {
+		for _, b := range vals {
+			env := map[string]int64{recvName + ".layout": a, paramName: b}
+			var chosen *eng.Clause
+			undecided := false
+			for i := range sw.Clauses {
+				c := &sw.Clauses[i]
+				if c.Keys[0].Default {
+					chosen = c
+					break
+				}
+				v, ok := eng.EvalBool(pkg.TypesInfo, c.Node.List[0], env)
+				if !ok {
+					undecided = true
+					break
+				}
+				if v {
+					chosen = c
+					break
+				}
+			}
+			key := fmt.Sprintf("geom.(*Bounds).extendLayout/%s+%s", ln[a], ln[b])
+			if undecided {
+				r.Unknown(rule, key, p.Pos(fd.Pos()), "a clause condition does not fold to a constant for this pair")
+				continue
+			}
+			want := "none->"
+			switch {
+			case ln[a] == "XYZ" && ln[b] == "XYM":
+				want = "append-m->XYZM"
+			case ln[a] == "XYM" && (ln[b] == "XYZ" || ln[b] == "XYZM"):
+				want = "insert-z->XYZM"
+			case a < b:
+				want = "extend-stride->" + paramName
+			}
+			got := classify(chosen)
+			r.Check(got == want, rule, key, p.Pos(fd.Pos()), true, "action "+got, fmt.Sprintf("box layout %s extended with %s performs %q, the layout lattice requires %q (an M range left in the Z slot, or a missing slot)", ln[a], ln[b], got, want))
+		}
+	}
 }
